@@ -511,7 +511,9 @@ def _r4_dates(run, p):
     # table of local-time primitives: datetime.timestamp() and astimezone()
     # without tz interpret a naive value as LOCAL time; time.mktime/localtime,
     # datetime.fromtimestamp(x) (no tz) and time.strftime do the same.
-    for fn in (w, r):
+    sweep = [fn for fn in p.all_functions() if not fn.module.name.startswith(('falcon.testing', 'falcon.bench', 'falcon.cmd'))]
+    run.extra['c09_r4_localtime_sweep_functions'] = len(sweep)
+    for fn in sweep:
         for c in walk_self(fn.node):
             if not isinstance(c, ast.Call):
                 continue
